@@ -1519,6 +1519,20 @@ fn naccpt_equals_intervals() -> Option<String> {
     None
 }
 
+/// C03 / C11: with default options every method integrates in either direction: Ok, Success, last sample xend (RK4's default step points toward xend)
+fn default_options_both_directions() -> Option<String> {
+    struct Osc; impl IVP for Osc { fn ode(&self, _t: f64, y: &[f64], d: &mut [f64]) { d[0] = y[1]; d[1] = -y[0]; } }
+    for m in [Method::RK4, Method::RK23, Method::DOPRI5, Method::DOP853, Method::RADAU, Method::BDF] {
+        for &(x0, xe) in &[(0.0f64, 2.0f64), (2.0, 0.0), (-1.0, -3.5)] {
+            match solve_ivp(&Osc, x0, xe, &[1.0, 0.0], Options::builder().method(m.clone()).build()) {
+                Err(e) => return Some(format!("{:?} with default options on [{}, {}]: {:?}", m, x0, xe, e)),
+                Ok(s) => { if s.status != Status::Success || s.t.first().copied() != Some(x0) || s.t.last().copied() != Some(xe) { return Some(format!("{:?} with default options on [{}, {}]: status {:?}, t from {:?} to {:?}", m, x0, xe, s.status, s.t.first(), s.t.last())); } }
+            }
+        }
+    }
+    None
+}
+
 fn main() {
     let which = std::env::args().nth(1).unwrap_or_default();
     let r = match which.as_str() {
@@ -1529,6 +1543,7 @@ fn main() {
         "default_mass" => default_mass(),
         "matrix_dense_model" => matrix_dense_model(),
         "lu_small" => lu_small(),
+        "default_options_both_directions" => default_options_both_directions(),
         "naccpt_equals_intervals" => naccpt_equals_intervals(),
         "sol_many_range" => sol_many_range(),
         "step_count_law" => step_count_law(),
